@@ -365,8 +365,18 @@ def run_verus(unit: Unit, h: Harness, logdir: Path) -> HarnessResult:
     t0 = time.time()
     log_path = logdir / f"{unit.name}.{re.sub(r'[^A-Za-z0-9_]', '_', h.name)}.log"
     r = HarnessResult(unit.name, h, "undecided", log_path=str(log_path), solver="Verus 0.2026.09.13 + Z3")
+    target = VERIF / h.name
+    if h.name.endswith(".tmpl.rs"):
+        # contracts on the repository's own function text: the generator splices the functions of REPO's working tree into the
+        # template on every run (verus/gen_*.py documents exactly what the splice changes); a lost anchor is undecided, never an alarm
+        gen = VERIF / "verus" / ("gen_" + Path(h.name).name.split("_")[0] + ".py")
+        target = logdir / (unit.name + "_" + Path(h.name).name.replace(".tmpl.rs", "_gen.rs"))
+        g = sh(["python3", str(gen), str(REPO), str(VERIF / h.name), str(target)], cwd=logdir, timeout=60)
+        if g.returncode != 0:
+            r.reason = "generator could not splice the repository's functions: " + tail_err(g.stdout)
+            return r
     try:
-        p = sh(["verus", str(VERIF / h.name), "--time"], cwd=logdir, timeout=h.timeout)
+        p = sh(["verus", str(target), "--time"], cwd=logdir, timeout=h.timeout)
     except subprocess.TimeoutExpired:
         r.reason = f"timeout after {h.timeout}s"
         return r
@@ -380,12 +390,25 @@ def run_verus(unit: Unit, h: Harness, logdir: Path) -> HarnessResult:
     ok, bad = int(m.group(1)), int(m.group(2))
     r.n_checks, r.n_success = ok + bad, ok
     r.checks = [CheckResult(h.name, "SUCCESS" if bad == 0 else "FAILURE", h.desc, h.name)]
+    errs = []
+    try:
+        src_lines = Path(target).read_text().splitlines()
+        for m_ in re.finditer(r"^error: ([^\n]+)\n\s+--> [^\n:]+:(\d+):", p.stdout, re.M):
+            ln = int(m_.group(2))
+            fn = next((re.search(r"fn (\w+)", src_lines[i]).group(1) for i in range(min(ln, len(src_lines)) - 1, -1, -1)
+                       if re.match(r"\s*(pub(\([a-z]+\))? )?(proof |spec )?fn \w+", src_lines[i])), "?")
+            errs.append(f"{fn}: {m_.group(1)} (line {ln}: {src_lines[ln - 1].strip()[:90]})")
+    except Exception:  # noqa
+        errs = [l.strip() for l in p.stdout.splitlines() if l.startswith("error:") and "aborting" not in l]
+    floor = int((re.search(r"min_verified=(\d+)", h.desc) or [0, 0])[1])
     if ok + bad == 0:
         r.reason = "zero obligations generated (vacuity guard)"
+    elif bad == 0 and ok < floor:
+        r.reason = f"only {ok} obligations verified, expected at least {floor} (vacuity guard)"
     elif bad:
         r.outcome = "failed"
-        r.failed = [CheckResult(h.name, "FAILURE", h.desc, h.name)]
-        r.reason = "Verus could not discharge the lemma"
+        r.failed = [CheckResult(h.name, "FAILURE", ("obligation(s) not discharged: " + "; ".join(errs[:4]) + " || " if errs else "") + h.desc, h.name)]
+        r.reason = "Verus could not discharge: " + "; ".join(errs[:4])
     else:
         r.outcome = "success"
     return r
